@@ -5,6 +5,7 @@
 -/
 import OpwVerif.Drv.KinOps2
 import OpwVerif.Drv.MiscOps
+import OpwVerif.Drv.MiscOps2
 open Opw Opw.Proto Opw.Drv
 
 def dispatch (op : String) : Option (RM Res) :=
@@ -25,6 +26,11 @@ def dispatch (op : String) : Option (RM Res) :=
   | "h_dist" => some opHDist
   | "h_cmp" => some opHCmp
   | "c07" => some opC07
+  | "c18" => some opC18
+  | "frame" => some opFrame
+  | "frame_tr" => some opFrameTr
+  | "fwd_tr" => some opFwdTr
+  | "jac" => some opJac
   | "lin" => some opLin
   | "gantry" => some opGantry
   | "cons_of" => some opConsOf
